@@ -58,6 +58,10 @@ type Params struct {
 	File          bool // file-backed disk manager for the live run (needed for clean shutdown / reopen)
 	CleanShutdown bool // end the live run with SamehadaDB.Shutdown() (flush + graceful-shutdown record) instead of closing the files
 	NoUpdate      bool // never generate UPDATE (tables with a hash index: UpdateEntry is unimplemented there)
+	// BigTxnRows > 0: instead of the random walk, preload that many wide rows (auto-commit, before SetupEnd), then run
+	// transactions that each change EVERY row in one statement, so that a single transaction appends more log than the
+	// log buffer holds (LogBufferSize = 129 pages) with no commit, eviction or checkpoint flushing in between
+	BigTxnRows int
 	// concurrent histories (RunConcurrent)
 	Clients      int
 	ConcurrentIO bool          // recorder does not serialise the engine's I/O calls (see rec.Recorder.Concurrent)
@@ -148,7 +152,11 @@ func Run(r *rand.Rand, path string, p Params) (h *History, fatal string) {
 		rn.owner[t.Name] = map[int32]int{}
 	}
 	h.SetupEnd = rc.Len()
-	rn.run()
+	if p.BigTxnRows > 0 {
+		rn.bigTxn()
+	} else {
+		rn.run()
+	}
 	// finish: end all open transactions (commit or abort), then compare live state with the model
 	for len(rn.open) > 0 {
 		if r.Intn(2) == 0 {
@@ -553,6 +561,107 @@ func (rn *runner) auto() bool {
 	rn.h.Stats["writing_commits"]++
 	rn.quiescent(t)
 	return true
+}
+
+// bigTxn: see Params.BigTxnRows.
+func (rn *runner) bigTxn() {
+	r := rn.r
+	table := rn.p.Tables[0].Name
+	for n := 0; n < rn.p.BigTxnRows && rn.h.EndedEarly == ""; {
+		rn.nTxn++
+		t := &Txn{N: rn.nTxn, CommitCall: -1, CommitRet: -1, AbortRet: -1, Auto: true}
+		var rows []rm.Row
+		for j := 0; j < 8 && n < rn.p.BigTxnRows; j++ {
+			id := rn.nextID
+			rn.nextID++
+			n++
+			rows = append(rows, rm.Row{rm.Int(id), rm.Int(int32(r.Intn(50))), rm.Str(payload(r, rn.p.RowSizes, rn.p.MaxPayload, fmt.Sprintf("pre%d.", id)))})
+		}
+		sql, _ := sqlx.InsertSQL(table, Cols, rows)
+		t.Stmts = []string{clip(sql)}
+		t.Begin = rn.rc.Len()
+		rn.rc.Mark("BEGIN", t.N)
+		t.CommitCall = rn.rc.Len()
+		rn.rc.Mark("COMMIT-CALL", t.N)
+		res := rn.db.Auto(sql)
+		rn.h.Txns = append(rn.h.Txns, t)
+		if res.Err != nil || res.Aborted {
+			rn.h.EndedEarly = fmt.Sprintf("preload failed: %v aborted=%v", res.Err, res.Aborted)
+			return
+		}
+		t.CommitRet = rn.rc.Len()
+		rn.rc.Mark("COMMIT-RET", t.N)
+		for _, row := range rows {
+			t.Ops = append(t.Ops, Op{Table: table, Kind: "ins", ID: row[0].I, Row: row})
+			rn.commit[table][row[0].I] = row
+		}
+		rn.h.Stats["preloaded_rows"] += int64(len(rows))
+	}
+	if rn.p.Checkpoint {
+		rn.db.S.ForceCheckpointingForTestcase()
+	}
+	rn.h.SetupEnd = rn.rc.Len()
+	updateAll := func(i int) bool {
+		o := rn.open[i]
+		nk := int32(1000 + r.Intn(100000))
+		var ids []int
+		for id := range rn.commit[table] {
+			ids = append(ids, int(id))
+		}
+		for id, rp := range o.overlay[table] {
+			if rp != nil {
+				if _, ok := rn.commit[table][id]; !ok {
+					ids = append(ids, int(id))
+				}
+			}
+		}
+		sort.Ints(ids)
+		rn.h.Stats["stmt_update_every_row"]++
+		return rn.stmt(i, fmt.Sprintf("UPDATE %s SET k = %d WHERE id >= 0;", table, nk), false, func(o *openTxn) {
+			for _, idi := range ids {
+				old, _ := rn.visible(o, table, int32(idi))
+				if old == nil {
+					continue
+				}
+				nr := old.Clone()
+				nr[1] = rm.Int(nk)
+				rn.write(o, table, "upd", int32(idi), nr)
+			}
+		})
+	}
+	rounds := 2 + r.Intn(2)
+	for round := 0; round < rounds && !rn.stop && rn.h.EndedEarly == ""; round++ {
+		rn.begin()
+		if !updateAll(0) {
+			return
+		}
+		// a few more statements in the same transaction
+		for k := r.Intn(4); k > 0 && len(rn.open) > 0; k-- {
+			if !rn.dml(0) {
+				return
+			}
+		}
+		if len(rn.open) == 0 {
+			continue // ended by an unexpected abort
+		}
+		abortP := 20
+		if rn.p.Bias == "loser" {
+			abortP = 50
+		}
+		switch {
+		case round == rounds-1 && r.Intn(2) == 0:
+			// left open: ended by the common epilogue of Run (a loser at every crash point until then)
+		case r.Intn(100) < abortP:
+			rn.abortTxn(0, false)
+		default:
+			rn.commitTxn(0)
+		}
+		if len(rn.open) == 0 && r.Intn(2) == 0 {
+			if !rn.auto() {
+				return
+			}
+		}
+	}
 }
 
 func (rn *runner) run() {
